@@ -16,6 +16,8 @@ import Hifi.Gen.DurUnits
   INTEGRATION.md):
   * `lexical_core::parse::<i64>`  = `parseI64`: optional sign `+`/`-`, at least one ASCII digit,
     whole input consumed, leading zeros allowed, error outside the i64 range.
+  * `lexical_core::parse::<i128>` = `parseI128`: the same grammar with the i128 range (used by
+    `Numeral::parse` since fix D37, f941bbd: a plain integer numeral is multiplied as an integer).
   * `lexical_core::parse::<f64>`  = `parseF64`: `[+-]? (digits [. digits*] | . digits+) ([eE] [+-]? digits+)?`
     or `[+-]? (nan | inf | infinity)` (case-insensitive), whole input consumed, correctly rounded
     (nearest, ties to even) to binary64, overflow to ±inf, underflow to 0.
@@ -113,6 +115,21 @@ def parseI64 (bs : List Nat) : Option Int :=
   | c :: ds => if c = 45 then parseI64Digits true ds
                else if c = 43 then parseI64Digits false ds
                else parseI64Digits false (c :: ds)
+
+/-- `lexical_core::parse::<i128>` after the optional sign -/
+def parseI128Digits (neg : Bool) (ds : List Nat) : Option Int :=
+  if ds = [] then none
+  else if allDigits ds = false then none
+  else if neg then (if fitsI128 (-(valDigits ds 0 : Int)) then some (-(valDigits ds 0 : Int)) else none)
+  else (if fitsI128 (valDigits ds 0 : Int) then some (valDigits ds 0 : Int) else none)
+
+/-- `lexical_core::parse::<i128>` (bytes in, `none` = `Err`): same grammar as `parse::<i64>` -/
+def parseI128 (bs : List Nat) : Option Int :=
+  match bs with
+  | [] => none
+  | c :: ds => if c = 45 then parseI128Digits true ds
+               else if c = 43 then parseI128Digits false ds
+               else parseI128Digits false (c :: ds)
 
 -- ------------------------------------------------------------------------------------------
 -- binary64
@@ -288,6 +305,48 @@ def composeF64 (dec : List F64) : Res Dur :=
   | _ => .panic  -- the array has seven entries: unreachable (theorem)
 
 -- ------------------------------------------------------------------------------------------
+-- numerals of `parse_duration` (src/duration/parse.rs `enum Numeral`)
+
+/-- `enum Numeral { Integer(i128), Float(f64) }` -/
+inductive Num where
+  | int (z : Int)
+  | flt (x : F64)
+deriving Repr, Inhabited
+
+/-- `Numeral::parse`: a plain integer (optional sign, digits, fits i128) stays an integer; anything
+    else (fraction, exponent, `inf`/`nan`, too many digits) goes through `parse::<f64>` -/
+def parseNumeral (bs : List Nat) : Option Num :=
+  match parseI128 bs with
+  | some z => some (.int z)
+  | none => match parseF64 bs with
+    | some x => some (.flt x)
+    | none => none
+
+/-- `UNIT_OF_POS[pos]` as the unit's length in ns (the index is checked by `setDec`) -/
+def slotFactor : Nat → Int
+  | 0 => Gen.NANOSECONDS_PER_DAY
+  | 1 => Gen.NANOSECONDS_PER_HOUR
+  | 2 => Gen.NANOSECONDS_PER_MINUTE
+  | 3 => Gen.NANOSECONDS_PER_SECOND
+  | 4 => Gen.NANOSECONDS_PER_MILLISECOND
+  | 5 => Gen.NANOSECONDS_PER_MICROSECOND
+  | _ => 1
+
+/-- `Numeral::times(unit)`: an integer is multiplied exactly
+    (`from_total_nanoseconds(val.saturating_mul((1 * unit).total_nanoseconds()))`), a float as before -/
+def numTimes (f : Int) (v : Num) : Dur :=
+  match v with
+  | .int z => Dur.fromTotal (satI128 (z * f))
+  | .flt x => unitMulF64 f x
+
+/-- `decomposed[0] + decomposed[1] + … + decomposed[6]` (the summation order of `compose_f64`) -/
+def sumDec (dec : List Dur) : Res Dur :=
+  match dec with
+  | [d, h, m, s, ms, us, ns] =>
+    .ok (Dur.add (Dur.add (Dur.add (Dur.add (Dur.add (Dur.add d h) m) s) ms) us) ns)
+  | _ => .panic  -- the array has seven entries: unreachable (theorem)
+
+-- ------------------------------------------------------------------------------------------
 -- `parse_duration`
 
 /-- `cmp_chars_to_str(s, start_idx, cmp_str)`: byte comparison, no boundary requirement -/
@@ -303,16 +362,17 @@ def lookupUnit (bs : List Nat) (start : Nat) : List (List Nat × Nat) → Option
 structure PSt where
   prev : Nat            -- prev_idx
   seeking : Bool        -- seeking_number
-  latest : F64          -- latest_value
+  latest : Num          -- latest_value
   pcws : Bool           -- prev_char_was_space
-  dec : List F64        -- decomposed: [f64; 7]
+  dec : List Dur        -- decomposed: [Duration; 7]
 deriving Repr
 
-def PSt.init : PSt := ⟨0, true, .int 0, false, [.int 0, .int 0, .int 0, .int 0, .int 0, .int 0, .int 0]⟩
+def PSt.init : PSt :=
+  ⟨0, true, .int 0, false, [Dur.ZERO, Dur.ZERO, Dur.ZERO, Dur.ZERO, Dur.ZERO, Dur.ZERO, Dur.ZERO]⟩
 
-/-- `decomposed[pos] = latest_value` (index out of bounds panics) -/
-def setDec (st : PSt) (pos : Nat) : Res (List F64) :=
-  if pos < st.dec.length then .ok (st.dec.set pos st.latest) else .panic
+/-- `decomposed[pos] = latest_value.times(UNIT_OF_POS[pos])` (index out of bounds panics) -/
+def setDec (st : PSt) (pos : Nat) : Res (List Dur) :=
+  if pos < st.dec.length then .ok (st.dec.set pos (numTimes (slotFactor pos) st.latest)) else .panic
 
 /-- one iteration of `for (idx, char) in s.char_indices()` -/
 def pdStep (bs : List Nat) (idx c : Nat) (st : PSt) : Res PSt :=
@@ -323,7 +383,7 @@ def pdStep (bs : List Nat) (idx c : Nat) (st : PSt) : Res PSt :=
         else match sliceB bs st.prev idx with
           | .panic => .panic
           | .err => .err
-          | .ok num => match parseF64 num with
+          | .ok num => match parseNumeral num with
             | none => .err
             | some v => .ok ⟨st.prev, false, v, true, st.dec⟩
       else .ok ⟨st.prev, st.seeking, st.latest, true, st.dec⟩
@@ -355,11 +415,11 @@ def pdFinish (bs : List Nat) (st : PSt) : Res Dur :=
     match lookupUnit bs st.prev Gen.DUR_UNITS with
     | none => .err
     | some pos => match setDec st pos with
-      | .ok dec => composeF64 dec
+      | .ok dec => sumDec dec
       | .err => .err
       | .panic => .panic
   else if st.prev < bs.length then .err
-  else composeF64 st.dec
+  else sumDec st.dec
 
 /-- `parse_duration(s)`, `cs` the code points of `s` -/
 def parseDuration (cs : List Nat) : Res Dur :=
